@@ -378,9 +378,25 @@ def proj_value(v):
 
 
 # ------------------------------------------------------------------ operations
+_OPDEF_CACHE: dict = {}
+
+
+def opdef_for(extension, name, defsig, ddesc):
+    from hugr import ext
+    key = (extension, name, repr(defsig), ddesc)
+    if key not in _OPDEF_CACHE:
+        e = ext.Extension(extension, ext.Version(0, 1, 0))
+        _OPDEF_CACHE[key] = e.add_op_def(ext.OpDef(name, ext.OpDefSig(build_poly(defsig)), description=ddesc))
+    return _OPDEF_CACHE[key]
+
+
 def build_sugar_op(o):
     from hugr import ops, tys
     k = o["op"]
+    if k == "ExtOp":
+        od = opdef_for(o["extension"], o["name"], o["defsig"], o["ddesc"])
+        cached = None if "none" in o["cached"] else build_type(o["cached"])
+        return ops.ExtOp(od, cached, [build_arg(a) for a in o["args"]])
     if k == "MakeTuple":
         return ops.MakeTuple(build_row(o["types"]))
     if k == "UnpackTuple":
